@@ -51,6 +51,9 @@ func pickRequest(t *tape.Tape, g *service.Gen, weights [6]int) *service.Request 
 
 func (c *C13) Run(x *engine.Ctx) *engine.Violation {
 	t := x.T
+	if x.Run == 1 && raceBin() != "" {
+		return c.raceScenario(x) // uncontrolled -race companion mode
+	}
 	sim := service.NewSim(t, x.Log, x.S)
 	sim.Configure([]int{service.StratUniform, service.StratSticky, service.StratPCT, service.StratPCT, service.StratStarve})
 	w := &service.World{Sim: sim, Sys: c.sys, Cycles: 1, StopAfterBegun: -1, WaitBound: true}
@@ -247,6 +250,9 @@ func (c *C20) Plan(tier string) engine.Plan {
 
 func (c *C20) Run(x *engine.Ctx) *engine.Violation {
 	t := x.T
+	if x.Run == 1 && raceBin() != "" {
+		return c.raceScenario(x) // uncontrolled companion mode: porcupine over the scrape history
+	}
 	sim := service.NewSim(t, x.Log, x.S)
 	sim.Configure([]int{service.StratUniform, service.StratSticky, service.StratPCT, service.StratStarve})
 	w := &service.World{Sim: sim, Sys: c.sys, Cycles: 1, StopAfterBegun: -1, WaitBound: true}
